@@ -5,6 +5,18 @@ HERE = os.path.dirname(os.path.dirname(os.path.abspath(__file__)))
 ALL = ['C%02d' % i for i in range(1, 21)]
 
 CLAIMED = {
+ 'C04': dict(
+    level='model_checking',
+    text='Layout.tla states the frame layout (size of a declaration; the cell of every access path through arrays of rank 1-3 with arbitrary '
+         'lower bounds, records, nested records, arrays of records, dynamic arrays) and the theorem that distinct access paths map to distinct '
+         'cells inside the frame and outside array headers; MC_Layout.tla checks it for every sequence of declarations in the bound and prints '
+         'each scenario with its cell map. Each scenario is turned into probe programs (module level; fresh locals of a recursive SUB; SHARED; '
+         'STATIC; every location passed by reference and as an expression): sentinels are written everywhere, read back, overwritten one by one '
+         'and re-read, unassigned locations are read. Trace_QB.tla (store disjoint by construction, by-reference = same location) validates every '
+         'printed value in several configurations, and the cell each store touched on the real VM is compared with Layout.tla\'s cell map.',
+    note='Trusted: TLC, the probe-program builder and unparser, the event observer and tick recorder.',
+    technique='TLA+ layout theorem checked by TLC over declaration sequences + probe programs validated against the TLA+ store semantics and cell map',
+    design='6 C04'),
  'C08': dict(
     level='model_checking',
     text='Shapes.tla enumerates every statement shape (nesting of IF/ELSEIF/ELSE, single-line IF, FOR, WHILE, DO, SELECT with empty and '
